@@ -90,11 +90,11 @@ def schedules(rng, steps, tier):
         for i in range(0, steps[x] + 1):
             for j in range(1, steps[y] + 1):
                 two.append("run script %d:%d,%d:%d,%d:9999" % (x, i, y, j, x))
-    cap = 150 if tier == "quick" else 15000
+    cap = 150 if tier == "quick" else 2500
     if len(two) > cap:
         two = rng.sample(two, cap)
     out += two
-    for _ in range(50 if tier == "quick" else 1500):
+    for _ in range(50 if tier == "quick" else 600):
         out.append("run rand %d %d" % (rng.randrange(1 << 30), rng.choice([150, 300, 500, 800])))
     return out
 
